@@ -91,23 +91,25 @@ let state_digest (s : (n list) st) : string =
   let h = ref 0xcbf29ce484222325L in
   let add str = String.iter (fun ch -> h := Int64.mul (Int64.logxor !h (Int64.of_int (Char.code ch))) 0x100000001b3L) str in
   let r = int_of_nat s.r and n = int_of_nat s.n0 in
-  let nthd l i d = match List.nth_opt l i with Some x -> x | None -> d in
-  let rows = List.map (fun row -> List.map int_of_nat row) s.rws in
+  let rows = Array.of_list (List.map (fun row -> List.map int_of_nat row) s.rws) in
+  let unk = Array.of_list (List.map int_of_nat s.unk) and enc = Array.of_list (List.map int_of_nat s.enc) in
+  let ct = Array.of_list s.ct and tab = Array.of_list s.tab in
+  let geta a i d = if i < Array.length a then a.(i) else d in
+  let q = Array.make (max r 1) 0 in
   for row = 0 to r - 1 do
-    add (Printf.sprintf "u%d e%d c" (int_of_nat (nthd s.unk row O)) (int_of_nat (nthd s.enc row O)));
-    (match nthd s.ct row None with None -> add "-" | Some b -> List.iter (fun x -> add (Printf.sprintf "%02x" (int_of_n x))) b);
+    add (Printf.sprintf "u%d e%d c" (geta unk row 0) (geta enc row 0));
+    (match geta ct row None with None -> add "-" | Some b -> List.iter (fun x -> add (Printf.sprintf "%02x" (int_of_n x))) b);
     add " m";
-    List.iteri (fun i c -> add (if i = 0 then string_of_int c else "," ^ string_of_int c)) (nthd rows row []);
+    List.iteri (fun i c -> add (if i = 0 then string_of_int c else "," ^ string_of_int c); if c < r then q.(c) <- q.(c) + 1) (geta rows row []);
     add ";"
   done;
-  let known c = match nthd s.tab c None with Some _ -> true | None -> false in
+  let known c = match geta tab c None with Some _ -> true | None -> false in
   let cnt lo hi = let c = ref 0 in for i = lo to hi - 1 do if known i then incr c done; !c in
   add (Printf.sprintf "S%d R%d|" (cnt r n) (cnt 0 r));
-  for j = 0 to r - 1 do
-    add (Printf.sprintf "q%d," (List.fold_left (fun a row -> if List.mem j row then a + 1 else a) 0 rows))
-  done;
+  for j = 0 to r - 1 do add (Printf.sprintf "q%d," q.(j)) done;
   Printf.sprintf "%016Lx" !h
-let dig_tok l = "D" ^ String.concat "." (List.map (fun o -> match o with None -> "?" | Some o -> state_digest o.o_state) l)
+(* sessions above 200 symbols: no digest (the unary numbers of the extracted model make it quadratic); "-" is skipped by the differ *)
+let dig_tok l = "D" ^ String.concat "." (List.map (fun o -> match o with None -> "?" | Some o -> if List.length o.o_state.tab > 200 then "-" else state_digest o.o_state) l)
 
 let do_it args =
   match args with
@@ -265,7 +267,12 @@ let do_rs args =
     let toks = List.map (fun o -> last := Some o; show 'S' o) obs in
     let toks = match f with None -> toks | Some o -> last := Some o; toks @ [show 'F' o] in
     let e = match !last with None -> "E" ^ String.make (int_of_string k) '.' | Some o -> "E" ^ tabletters o.ro_tab in
-    String.concat " " (toks @ [e; "CB" ^ String.concat "," (List.map (fun x -> string_of_int (int_of_nat x)) evs)])
+    (* internal state after every call, same text as rs_state() of harness/drv_dec.c *)
+    let stxt o = let s = o.ro_state in
+      Printf.sprintf "a%ds%df%dm%s" (int_of_nat s.navail) (int_of_nat s.navail_src) (if s.fin then 1 else 0)
+        (String.concat "" (List.map (fun x -> match x with Some _ -> "1" | None -> "0") s.tab0)) in
+    let dg = "D" ^ String.concat "." (List.map stxt (obs @ (match f with None -> [] | Some o -> [o]))) in
+    String.concat " " (toks @ [e; "CB" ^ String.concat "," (List.map (fun x -> string_of_int (int_of_nat x)) evs); dg])
   | _ -> "BADREQ"
 
 (* ---- stream pchk:  Q <k> <r> <N1> <seed> <g0> <fuel> *)
